@@ -252,13 +252,30 @@ class TlcResult:
         return "\n".join(l for l in self.out.splitlines() if "Error" in l or "error" in l)[:4000]
 
 
-def _die_with_parent():
+_CHILDREN = set()
+
+
+def _kill_children(*_a):
+    for pr in list(_CHILDREN):
+        try:
+            pr.kill()
+        except Exception:
+            pass
+    if _a:                      # called as a signal handler
+        os._exit(143)
+
+
+def _install_reaper():
+    import atexit
+    import signal
+    if getattr(_install_reaper, "done", False):
+        return
+    _install_reaper.done = True
+    atexit.register(_kill_children)
     try:
-        import ctypes
-        import signal
-        ctypes.CDLL("libc.so.6").prctl(1, signal.SIGKILL)      # PR_SET_PDEATHSIG
+        signal.signal(signal.SIGTERM, _kill_children)
     except Exception:
-        pass
+        pass                    # not in the main thread
 
 
 def tla_modules():
@@ -294,9 +311,10 @@ def run_tlc(tag, module, cfg_text, files=None, workers=1, args=(), timeout=3600,
         env = dict(os.environ)
         env.update(env_extra or {})
         t0 = time.time()
-        # the JVM dies with this process (no orphaned model checkers) and is killed at the time limit
-        proc = subprocess.Popen(cmd, cwd=d, stdout=subprocess.PIPE, stderr=subprocess.STDOUT, text=True, env=env,
-                                preexec_fn=_die_with_parent)
+        # the JVMs are killed when the harness exits or is terminated, and at the time limit
+        _install_reaper()
+        proc = subprocess.Popen(cmd, cwd=d, stdout=subprocess.PIPE, stderr=subprocess.STDOUT, text=True, env=env)
+        _CHILDREN.add(proc)
         try:
             out, _ = proc.communicate(timeout=timeout)
             rc = proc.returncode
@@ -305,6 +323,8 @@ def run_tlc(tag, module, cfg_text, files=None, workers=1, args=(), timeout=3600,
             out, _ = proc.communicate()
             out = (out or "") + "\nError: TLC killed after the time limit of %d s\n" % timeout
             rc = 124
+        finally:
+            _CHILDREN.discard(proc)
 
         class _R:
             pass
